@@ -62,3 +62,18 @@ package clickhouse_transpiler
 //@   ensures le: result1 == nil && t.Op == "<=" ==> cmpOp(unbox(result0, "*sql.LogicalOp").clauses[2], "<=")
 //@   ensures other-operators-rejected: t.Op != "=" && t.Op != "!=" && t.Op != ">" && t.Op != "<" && t.Op != ">=" && t.Op != "<=" ==> result1 != nil
 //@ pure \(github\.com/metrico/qryn/reader/traceql/parser\.[A-Za-z]+\)\.String \(\*github\.com/metrico/qryn/reader/traceql/parser\.[A-Za-z]+\)\.String
+
+// Term numbering of a simple TraceQL expression: p.terms maps the text of a term
+// to its position in p.termIdx plus one. A term that occurs again in the query
+// gets the bit of its first occurrence, a new term gets the next free bit: in
+// both cases the leaf refers to an entry of p.termIdx that reads like the term.
+//@ func (github.com/metrico/qryn/reader/traceql/parser.AttrSelector).String
+//@   flag function
+//@   modifies nothing
+//@ func (*simpleExpressionPlanner).analyzeCond [C11]
+//@   requires p.terms != nil
+//@   modifies p.termIdx, mapof(p.terms), elems(p.termIdx)
+//@   ensures repeated-term-gets-its-first-bit: exp != nil && exp.ComplexHead == nil && exp.Head != nil && exp.Tail == nil && old(p.terms[exp.Head.String()]) != 0 ==> result != nil && result.simpleIdx + 1 == old(p.terms[exp.Head.String()])
+//@   ensures new-term-gets-the-next-bit: exp != nil && exp.ComplexHead == nil && exp.Head != nil && exp.Tail == nil && old(p.terms[exp.Head.String()]) == 0 ==> result != nil && result.simpleIdx == old(len(p.termIdx)) && len(p.termIdx) == old(len(p.termIdx)) + 1 && p.termIdx[result.simpleIdx] == exp.Head && p.terms[exp.Head.String()] == result.simpleIdx + 1
+//@   ensures term-list-grows-in-place-or-moves: aliases(p.termIdx, old(p.termIdx)) || fresh(p.termIdx)
+//@   ensures inner-node: exp != nil && exp.Tail != nil ==> result != nil && result.simpleIdx == -1 && result.op == exp.AndOr && len(result.complex) == 2
